@@ -513,6 +513,40 @@ let eval_mode () =
            let verdict = oracle false 0 0 prefix ops ~all_blocked outs in
            print_string (String.concat " || " alts); print_string " ## "; print_string verdict; print_char '\n')
     with
+    | Not_found when (let (k, _, _) = Mlutil.split_case line in k = "scan") ->
+        (* the retention scanner as a concurrent party. Specification: "scan" = a walk + removals of the expired
+           messages it saw, nothing else: whatever the interleaving, at the end every fresh message (of the prefix
+           or delivered meanwhile) is there, in arrival order, and every expired message of the prefix is gone *)
+        let (_, ins, outs) = Mlutil.split_case line in
+        (match ins with
+         | [_; prefix; adds; _] ->
+             let items s = if s = "-" then [] else String.split_on_char ',' s in
+             let fresh = List.filter_map (fun it -> match String.split_on_char ':' it with
+                 | [mb; tag; "f"] -> Some (int_of_string mb, int_of_string tag) | _ -> None) (items prefix)
+               @ List.filter_map (fun it -> match String.split_on_char ':' it with
+                 | [mb; tag] -> Some (int_of_string mb, int_of_string tag) | _ -> None) (items adds) in
+             let expired = List.filter_map (fun it -> match String.split_on_char ':' it with
+                 | [mb; tag; "e"] -> Some (int_of_string mb, int_of_string tag) | _ -> None) (items prefix) in
+             let fin = String.concat ";" (List.map (fun mb -> Printf.sprintf "%d=%s" mb
+                 (String.concat "+" (List.filter_map (fun (m, t) -> if m = mb then Some (Printf.sprintf "%d.0" t) else None) fresh))) [1; 2; 4]) in
+             let addres = let n = List.length (items adds) in if n = 0 then "-" else String.concat "," (List.init n (fun _ -> "id")) in
+             let has tag = match outs with
+               | [_; _; f] -> List.exists (fun e -> match String.split_on_char '=' e with
+                   | [_; v] -> List.mem (Printf.sprintf "%d.0" tag) (String.split_on_char '+' v) || List.mem (Printf.sprintf "%d.1" tag) (String.split_on_char '+' v)
+                   | _ -> false) (String.split_on_char ';' f)
+               | _ -> false in
+             let verdict = match outs with
+               | ["crash"] -> "fail:process-crashed"
+               | ["no-answer"] -> "fail:deadlock"
+               | st :: _ when st = "deadlock" -> "fail:deadlock"
+               | st :: _ when String.length st >= 4 && String.sub st 0 4 = "scan" -> "fail:operation-failed"
+               | [_; _; _] ->
+                   if List.exists (fun (_, t) -> not (has t)) fresh then "fail:retention-scan-removed-unexpired-message"
+                   else if List.exists (fun (_, t) -> has t) expired then "fail:retention-scan-kept-expired-message"
+                   else "ok"
+               | _ -> "fail:malformed-observation" in
+             Mlutil.print_model ["fin"; addres; fin] verdict
+         | _ -> Mlutil.print_model ["MALFORMED"] "ok")
     | Not_found when (let (k, _, _) = Mlutil.split_case line in k = "fault") ->
         (* fault family: the index of mailbox 1 cannot be rewritten. The models have no I/O errors; the expected
            observation below is what the unchanged file store does (a rewrite of that index fails with an error
